@@ -10,6 +10,10 @@ import ElysModel.Gen.Arith.execStopLossGuards
 import ElysModel.Gen.Arith.execLimitSellGuards
 import ElysModel.Gen.Arith.execLimitBuyGuards
 import ElysModel.Gen.Arith.execLimitOpenGuards
+import ElysModel.Gen.Arith.cancelSpotGuards
+import ElysModel.Gen.Arith.updateSpotGuards
+import ElysModel.Gen.Arith.cancelPerpGuards
+import ElysModel.Gen.Arith.updatePerpGuards
 import ElysModel.Gen.Arith.Table
 import ElysModel.Ledger.Orders
 namespace Elys.Orders.C20Src
@@ -49,5 +53,33 @@ theorem gen_free_exec_guards :
       "#0.GetAssetPriceFromDenomInToDenomOut(#1, #2.OrderPrice.BaseDenom, #2.OrderPrice.QuoteDenom)#err", "#2.OrderPrice.Rate"] ∧
     Gen.Arith.freeOf "execLimitOpenGuards" = ["#0.perpetual.GetAssetPrice(#1, #2.TradingAsset)", "#0.perpetual.GetAssetPrice(#1, #2.TradingAsset)#err",
       "#2.Position", "#2.TriggerPrice.Rate"] := by decide
+
+/-- owner control, as the source has it now (x/tradeshield/keeper/msg_server_spot_order.go, msg_server_perpetual_order.go): the
+guards in front of a cancel or an update of a pending order let a message through only when the order exists and the message's
+owner address does not differ from the stored owner — for the four single-order messages. (`differs` is the free Boolean the
+table below pins to `msg.OwnerAddress != order.OwnerAddress`.) -/
+theorem gen_owner_only (found differs : Bool) (bal : Int) (tp rate pos mnL mxL mxS : Int) :
+    (Gen.Arith.cancelSpotGuards found differs bal = .ok true → found = true ∧ differs = false) ∧
+    (Gen.Arith.updateSpotGuards found differs = .ok true → found = true ∧ differs = false) ∧
+    (Gen.Arith.cancelPerpGuards found differs = .ok true → found = true ∧ differs = false) ∧
+    (Gen.Arith.updatePerpGuards found differs tp rate pos mnL mxL mxS = .ok true → found = true ∧ differs = false) := by
+  unfold Gen.Arith.cancelSpotGuards Gen.Arith.updateSpotGuards Gen.Arith.cancelPerpGuards Gen.Arith.updatePerpGuards
+  refine ⟨?_, ?_, ?_, ?_⟩ <;> intro h <;> cases found <;> cases differs <;> simp at h ⊢
+
+/-- and the owner of an existing order is never refused by these guards (cancel, update of a spot order). -/
+theorem gen_owner_let_through (bal : Int) :
+    Gen.Arith.cancelSpotGuards true false bal = .ok true ∧ Gen.Arith.updateSpotGuards true false = .ok true ∧
+    Gen.Arith.cancelPerpGuards true false = .ok true := ⟨rfl, rfl, rfl⟩
+
+/-- the free Boolean of each of the four guards is the comparison of the message's owner with the stored order's owner. -/
+theorem gen_free_owner_guards :
+    (Gen.Arith.freeOf "cancelSpotGuards").take 2 = ["#0.GetPendingSpotOrder(sdk.UnwrapSDKContext(#1), #2.OrderId)#1",
+      "#0.GetPendingSpotOrder(sdk.UnwrapSDKContext(#1), #2.OrderId).OwnerAddress != #2.OwnerAddress"] ∧
+    Gen.Arith.freeOf "updateSpotGuards" = ["#0.GetPendingSpotOrder(sdk.UnwrapSDKContext(#1), #2.OrderId)#1",
+      "#2.OwnerAddress != #0.GetPendingSpotOrder(sdk.UnwrapSDKContext(#1), #2.OrderId).OwnerAddress"] ∧
+    Gen.Arith.freeOf "cancelPerpGuards" = ["#0.GetPendingPerpetualOrder(sdk.UnwrapSDKContext(#1), #2.OrderId)#1",
+      "#2.OwnerAddress != #0.GetPendingPerpetualOrder(sdk.UnwrapSDKContext(#1), #2.OrderId).OwnerAddress"] ∧
+    (Gen.Arith.freeOf "updatePerpGuards").take 2 = ["#0.GetPendingPerpetualOrder(sdk.UnwrapSDKContext(#1), #2.OrderId)#1",
+      "#2.OwnerAddress != #0.GetPendingPerpetualOrder(sdk.UnwrapSDKContext(#1), #2.OrderId).OwnerAddress"] := by decide
 
 end Elys.Orders.C20Src
